@@ -351,6 +351,43 @@ def g1_family(r):
     return {"chain": chain, "root": root}
 
 
+def g1_lists(n, depth, used, in_block):
+    """all node lists with exactly n nodes (leaf 0, block.super, wrap 2, blocks 0/1 with unique names), nesting <= depth"""
+    if n == 0:
+        yield [], used
+        return
+    for k in range(1, n + 1):
+        for first, used1 in g1_node(k, depth, used, in_block):
+            for rest, used2 in g1_lists(n - k, depth, used1, in_block):
+                yield [first] + rest, used2
+
+
+def g1_node(k, depth, used, in_block):
+    if k == 1:
+        yield ("leaf", 0), used
+        yield ("super",), used
+    if depth > 0:
+        for body, used1 in g1_lists(k - 1, depth - 1, used, in_block):
+            yield ("wrap", 2, body), used1
+        for nm in (0, 1):
+            if nm not in used:
+                for body, used1 in g1_lists(k - 1, depth - 1, used | {nm}, True):
+                    yield ("block", nm, body), used1
+
+
+def g1_templates_upto(maxn, depth=2):
+    return [l for n in range(0, maxn + 1) for l, _ in g1_lists(n, depth, frozenset(), False)]
+
+
+def g1_exhaustive(thorough):
+    """every family root x child (and, thorough, root x mid x leaf) over the small templates"""
+    t1, t2, t3 = g1_templates_upto(1), g1_templates_upto(2), g1_templates_upto(3)
+    fams = [{"chain": [c], "root": r} for r in (t3 if thorough else t2) for c in t2]
+    if thorough:
+        fams += [{"chain": [leaf, mid], "root": r} for r in t2 for mid in t1 for leaf in t2]
+    return fams
+
+
 def g1_src(nodes):
     out = []
     for n in nodes:
@@ -681,9 +718,20 @@ class Unflatten:
             return t
         if t[0] == "for" and self.has_free_fill(t[3]):
             return t
-        if t[0] == "fill" and (t[1][0] != "str" or t[3]):
-            return t       # dynamic name, or the `default` alias: the fill can be rendered inside the slot's own default content
+        if t[0] == "comp" and self.reentrant_fills(t[4]):
+            return t       # some fill of this tag can be rendered inside the default content of a slot (`default` alias,
+            #                dynamic / looped fills): any block in any fill of the tag could be entered while it is being rendered
         return map_bodies(t, lambda b: self.walk(b, level))
+
+    def reentrant_fills(self, body):
+        for t in body:
+            if t[0] == "fill" and (t[1][0] != "str" or t[3]):
+                return True
+            if t[0] == "for" and self.has_free_fill(t[3]):
+                return True
+            if t[0] != "comp" and any(self.reentrant_fills(t[i]) for i in BODY_IDX.get(t[0], ())):
+                return True
+        return False
 
     def junk(self):
         return [("text", self.r.choice(["JUNK", "junk!", "<j>"]))] + ([("out", ("var", "p1"))] if self.r.random() < 0.3 else [])
@@ -748,11 +796,6 @@ class Unflatten:
                 out.append(self.descend(ts[i], level))
                 i += 1
         return out
-
-    def opaque(self, seg):
-        """segment that must stay as it is (see descend)"""
-        return any((t[0] == "for" and self.has_free_fill(t[3])) or (t[0] == "fill" and (t[1][0] != "str" or t[3]))
-                   or (t[0] == "slot" and self.skip_slot_bodies) or (t[0] == "comp" and self.skip_comp_bodies) for t in seg)
 
     def include(self, seg):
         self.ninc += 1
@@ -1186,12 +1229,6 @@ def make_family_program(rng, prog, uid, collide=False, which=None, knobs=None):
 def flatten_family_program(fp):
     return {"lib": [(c, {"tpl": fam_flatten(f, fp["inc"]), "data": d}) for c, f, d in fp["lib"]],
             "page": fam_flatten(fp["page"], fp["inc"]), "ctx": fp["ctx"], "mode": fp["mode"]}
-
-
-def _tuplify(x):
-    if isinstance(x, list):
-        return [_tuplify(y) for y in x]
-    return x
 
 
 def norm(ts):
